@@ -25,6 +25,7 @@ var SetupSQL = []string{
 	"CREATE TABLE t1 (id INT PRIMARY KEY, v INT)",
 	"CREATE TABLE t2 (id INT PRIMARY KEY, v INT)",
 	"CREATE TABLE tdrop (a INT)",
+	"CREATE TABLE tdrop2 (a INT)",
 	"INSERT INTO t1 VALUES (1,10),(2,20)",
 	"INSERT INTO t2 VALUES (1,1)",
 	"CREATE PROCEDURE p1() SELECT 1",
